@@ -429,6 +429,12 @@ def discharge(mod, pid, cfg, o, A, B, timeout_ms, seed, path, swept_goal=None):
                 orec['sqrt_level'] = 1
         else:
             res = prove.valid(goal, AA, to, defined=not o.meta.get('no_definedness', False))
+        if res.verdict == 'cex' and o.meta.get('lemma'):
+            # a lemma of a proof decomposition is stronger than the property: a model against it is not a violation, it only
+            # means that the decomposition does not apply to this code (the clause it supports stays searched, not proved)
+            orec['env'] = _jsonable_env(res.env)
+            res = prove.Result('unknown', note='lemma of the proof decomposition does not hold on this code (model kept in env): '
+                                               'decomposition not applicable, the supported clause is only searched for violations')
         orec['verdict'] = res.verdict
         if res.note:
             orec['note'] = res.note
@@ -832,8 +838,12 @@ def report(mod, pid, tier, seed, recs, wall, verbose=False):
             if n not in notes:
                 notes.append(n)
         vac += sum(1 for w in r.get('witness', []) if w == 'VACUOUS')
+        lemmas_ok = all(o['verdict'] == 'proved' for o in r['obligations'] if o.get('meta', {}).get('lemma'))
         for o in r['obligations']:
             v = o['verdict']
+            if v == 'searched' and not lemmas_ok:
+                v = o['verdict'] = 'unknown'
+                o['note'] = 'the lemma chain carrying the proof is incomplete in this run: searched for violations only'
             counts[v] = counts.get(v, 0) + 1
             if o.get('how') is None and v == 'proved':
                 nontrivial.add(cfg_key(r['cfg']) + '|' + o['name'])
